@@ -83,7 +83,7 @@ PROPS['C15'] = dict(title='Archetype and component ids follow the discriminant r
                     coq=['props/C15.vo'], tags=[15], macro=dict(cases=200, stress=True),
                     streams=[('w2', 'H1', 10, 40)], configs=['dbg'], need=['conv'])
 PROPS['C16'] = dict(title='#[cfg]-disabled archetypes, components and query parameters behave as absent',
-                    coq=['props/C16.vo'], tags=[16], macro=dict(cases=200, stress=False),
+                    coq=['props/C16.vo'], tags=[16], macro=dict(cases=200, stress=False), cfgprobe=True,
                     streams=[], configs=['dbg'], need=[])
 
 THOROUGH_CONFIGS = ['dbg', 'rel', 'dbg-ev', 'dbg-wrap', 'dbg-all', 'rel-plain', 'rel-ev', 'rel-all']
